@@ -68,7 +68,72 @@ type neighbours struct {
 	tail [4]uint64
 }
 
+type c19Holder struct{ tr apache.TTransport }
+
+var c19Sink *c19Holder
+
+//go:noinline
+func c19Grow(n int) int {
+	var pad [512]byte
+	pad[n%len(pad)] = byte(n)
+	if n == 0 {
+		return int(pad[0])
+	}
+	return c19Grow(n-1) + int(pad[n%len(pad)])
+}
+
+// c19LocalBuffer creates the transport over a bytes.Buffer that is a LOCAL variable (if the library does
+// not make it escape it lives on this goroutine's stack), parks the transport in a heap object, makes the
+// stack grow (move) and then compares the two handles.
+//
+//go:noinline
+func c19LocalBuffer(depth int, h *c19Holder) (diffs []string) {
+	var buf bytes.Buffer
+	h.tr = apache.NewBufferTransport(&buf)
+	buf.WriteString("abc")
+	if h.tr.RemainingBytes() != uint64(buf.Len()) {
+		diffs = append(diffs, fmt.Sprintf("before the deep call: RemainingBytes %d, buffer Len %d", h.tr.RemainingBytes(), buf.Len()))
+	}
+	c19Grow(depth)
+	buf.WriteString("defg")
+	if h.tr.RemainingBytes() != uint64(buf.Len()) {
+		diffs = append(diffs, fmt.Sprintf("after a deep call and Write through the buffer: RemainingBytes %d, buffer Len %d", h.tr.RemainingBytes(), buf.Len()))
+	}
+	h.tr.Write([]byte("hi"))
+	if buf.String() != "abcdefghi" {
+		diffs = append(diffs, fmt.Sprintf("after Write through the transport the buffer holds %q, want %q", buf.String(), "abcdefghi"))
+	}
+	p := make([]byte, 4)
+	n, _ := h.tr.Read(p)
+	if n != 4 || string(p) != "abcd" || buf.Len() != 5 {
+		diffs = append(diffs, fmt.Sprintf("Read through the transport gave %q, buffer Len now %d (want \"abcd\", 5)", p[:n], buf.Len()))
+	}
+	buf.Reset()
+	if h.tr.RemainingBytes() != 0 {
+		diffs = append(diffs, fmt.Sprintf("after buffer.Reset: RemainingBytes %d", h.tr.RemainingBytes()))
+	}
+	h.tr = nil
+	return diffs
+}
+
 func monC19(c *drv.Ctx) {
+	// a transport over a buffer that is a local variable of the caller, kept in a heap object while the
+	// caller's stack grows: the transport IS that buffer wherever the runtime moves it
+	c.Stage("local-buffer-stack-growth", 64, true, func(cs *drv.Case) {
+		depth := 8 + int(cs.Idx)*6
+		h := &c19Holder{}
+		c19Sink = h
+		done := make(chan []string, 1)
+		go func() { done <- c19LocalBuffer(depth, h) }()
+		diffs := <-done
+		c19Sink = nil
+		cs.Desc = M{"frames_of_512_bytes": depth}
+		if len(diffs) > 0 {
+			cs.Fail("transport-detached-from-buffer", M{"placement": "local variable, stack grown"}, M{"differences": diffs, "frames": depth})
+		}
+		cs.Count(true, "local", cs.Idx)
+		cs.C.Obs("local-buffer transports across stack growth", 1)
+	})
 	// (1) buffer transport == the buffer: random histories through either handle
 	c.Stage("buffer-histories", c.Pick(60000, 1500000), false, func(cs *drv.Case) {
 		r := cs.R
